@@ -352,6 +352,30 @@ m("C01-R10-explicit-other", "C01", "C01.R10", "generator/generator.go", '\t\t\ti
 m("C12-R16-one-direction", "C12", "C12.R16", "method/index.go", 'if satisfiesContext(entry.Def.Context, def.Context) || satisfiesContext(def.Context, entry.Def.Context) {', 'if satisfiesContext(entry.Def.Context, def.Context) {')
 m("C07-R11-replace-last", "C07", "C07.R11", "builder/errorpath.go", 'func (e ErrorPath) Index(code *jen.Statement) ErrorPath { return append(e, errElmIndex{code}) }', 'func (e ErrorPath) Index(code *jen.Statement) ErrorPath {\n\tif len(e) > 8 {\n\t\treturn e\n\t}\n\treturn append(e, errElmIndex{code})\n}')
 
+# ---- round 7 rules
+m("C19-R13-skip-const-decls", "C19", "C19.R13", "comments/parse_docs.go", 'if genDecl, ok := decl.(*ast.GenDecl); ok {', 'if genDecl, ok := decl.(*ast.GenDecl); ok && genDecl.Tok != token.CONST {')
+m("C08-R18-builtin-first", "C08", "C08.R18", "config/enum.go", '\tt, ok := ctx.EnumTransformers[name]\n\tif !ok {\n\t\tt, ok = enum.DefaultTransformers[name]\n\t}', '\tt, ok := enum.DefaultTransformers[name]\n\tif !ok {\n\t\tt, ok = ctx.EnumTransformers[name]\n\t}')
+m("C08-R17-enabled-ignored", "C08", "C08.R17", "xtype/enum.go", 'if !cfg.Enabled || cfg.Excludes.Matches(path, name) {', 'if cfg.Excludes.Matches(path, name) {')
+m("C18-R9-enabled-ignored", "C18", "C18.R9", "xtype/enum.go", 'if !cfg.Enabled || cfg.Excludes.Matches(path, name) {', 'if cfg.Excludes.Matches(path, name) {')
+m("C12-R20-enabled-ignored", "C12", "C12.R20", "xtype/enum.go", 'if !cfg.Enabled || cfg.Excludes.Matches(path, name) {', 'if cfg.Excludes.Matches(path, name) {')
+m("C06-R20-forward-conditional", "C06", "C06.R20", "generator/generator.go", '} else if def, err := g.extend.Get(ctx.Signature, context); def != nil {', '} else if def, err := g.extend.Get(ctx.Signature, context); def != nil && !genMethod.ReturnError {')
+m("C07-R12-map-key-path", "C07", "C07.R12", "builder/map.go", '\terrPath = errPath.Key(jen.Id(key))\n', '')
+m("C05-R15-accessor-overwrites", "C05", "C05.R15", "config/method.go", '\ttarget, ok := m.Fields[targetName]\n\tif !ok {', '\ttarget, ok := m.Fields[targetName]\n\tif !ok || target.Ignore {')
+m("C10-R10-accessor-overwrites", "C10", "C10.R10", "config/method.go", '\ttarget, ok := m.Fields[targetName]\n\tif !ok {', '\ttarget, ok := m.Fields[targetName]\n\tif !ok || target.Ignore {')
+m("C14-R14-names-only-without-regex", "C14", "C14.R14", "method/parse.go", '|| localOpts.Context[arg.Name]:', '|| (opts.ContextMatch == nil && localOpts.Context[arg.Name]):')
+m("C03-R15-key-not-converted", "C03", "C03.R15", "builder/map.go", 'source.MapKey, target.MapKey, errPath)', 'source.MapKey, source.MapKey, errPath)')
+m("C02-R14-elem-not-converted", "C02", "C02.R14", "builder/list.go", 'indexedSource, source.ListInner, target.ListInner, path.Index(jen.Id(index)))', 'indexedSource, target.ListInner, target.ListInner, path.Index(jen.Id(index)))')
+m("C03-R16-enum-before-skipcopy", "C03", "C03.R16", "generator/generate.go", '\t&builder.SkipCopy{},\n\t&builder.Enum{},', '\t&builder.Enum{},\n\t&builder.SkipCopy{},')
+m("C12-R19-enum-gate", "C12", "C12.R19", "builder/enum.go", '\treturn ctx.Conf.Enum.Enabled &&\n\t\tsource.Enum(&ctx.Conf.Enum).OK &&', '\treturn source.Enum(&ctx.Conf.Enum).OK &&')
+m("C15-R13-register-no-store", "C15", "C15.R13", "namer/namer.go", '\t\tm.lookup[name] = struct{}{}\n\t\treturn true', '\t\treturn true')
+
+m("C04-R9-deref-variable", "C04", "C04.R9", "xtype/type.go", '\tinnerID.ParentPointer = j\n', '\tinnerID.Variable = j.Variable\n\tinnerID.ParentPointer = j\n')
+m("C11-R14-needs-default-update", "C11", "C11.R14", "builder/struct.go", 'case !ctx.Conf.UpdateTarget && !isUpdate:', 'case !ctx.Conf.UpdateTarget && !(isUpdate && ctx.Conf.DefaultUpdate):')
+
+m("C15-R14-errors-read", "C15", "C15.R14", "config/converter.go", '\tif pkg == nil {\n\t\treturn\n\t}\n\n\tif c.OutputPackageName == "" {', '\tif pkg == nil || pkg.IllTyped {\n\t\treturn\n\t}\n\n\tif c.OutputPackageName == "" {')
+m("C16-R10-errors-read", "C16", "C16.R10", "config/converter.go", '\tif pkg == nil {\n\t\treturn\n\t}\n\n\tif c.OutputPackageName == "" {', '\tif pkg == nil || pkg.IllTyped {\n\t\treturn\n\t}\n\n\tif c.OutputPackageName == "" {')
+m("C18-R10-typed-basic-zero", "C18", "C18.R10", "xtype/zero.go", '\t\t} else if cast.Kind() == types.UnsafePointer {\n\t\t\treturn jen.Nil()', '\t\t} else if cast.Kind() == types.UnsafePointer {\n\t\t\treturn toCodeBasic(cast.Kind()).Call(jen.Nil())')
+
 def run(cmd, cwd=None):
     return subprocess.run(cmd, cwd=cwd, env=ENV, shell=isinstance(cmd, str), capture_output=True, text=True, errors='replace')
 
